@@ -136,12 +136,13 @@ def runner_level(ctx, corr):
 
 def correspondence(ctx, corr):
     common.run_family(ctx, corr, 'c09_matrix', {'verbose': [0] if ctx.quick else [0, 1, 2, 3]})
+    common.run_family(ctx, corr, 'c09_helper_sweep', {'verbose': [0] if ctx.quick else [0, 2], 'max_extra': 6 if ctx.quick else 12})
     corr.exhaustive = True
     runner_level(ctx, corr)
 
 
 def search(ctx, corr, broken):
-    return common.search_families(ctx, corr, [('c09_matrix', {'verbose': [0, 2]})])
+    return common.search_families(ctx, corr, [('c09_matrix', {'verbose': [0, 2]}), ('c09_helper_sweep', {'verbose': [0, 2], 'max_extra': 8})])
 
 
 def classify(ctx, hit):
